@@ -466,6 +466,9 @@ fn sched_units(quick: bool) -> Vec<(Vec<String>, usize, usize, usize)> {
         (l(&["ab ab", "ab b", "a ab"]), 3, 2, 99),
         (l(&["aa", "a aa", "aa a"]), 5, 2, 99),
         (l(&["ab", "ba", "ab ba"]), 2, 3, if quick { 2 } else { 99 }),
+        // more lines than the channel holds, every line with the same word
+        (l(&["ab", "ab", "ab", "ab"]), 2, 1, 99),
+        (l(&["ab b", "ab", "b ab", "ab", "ab"]), 3, 2, 99),
     ];
     if !quick {
         u.push((l(&["abab", "ba", "b ab", "a"]), 60, 2, 99));
@@ -475,14 +478,14 @@ fn sched_units(quick: bool) -> Vec<(Vec<String>, usize, usize, usize)> {
     u
 }
 
-fn check_sched(run: &mut Run, ctx: &mut Ctx, lines: &[String], m: usize, workers: usize, bound: usize, replay: Option<Vec<usize>>) {
+fn check_sched(run: &mut Run, ctx: &mut Ctx, lines: &[String], m: usize, workers: usize, bound: usize, controlled_reducer: bool, replay: Option<Vec<usize>>) {
     use text_utils::verif::ThreadKind;
     let info = corpus_info(lines);
     let corpus = ctx.scratch.path("sched_corpus.txt");
     let out = ctx.scratch.path("sched_merges.bin");
     std::fs::write(&corpus, lines.iter().map(|l| format!("{l}\n")).collect::<String>()).expect("cannot write corpus");
     let (vocab_size, specials) = (320usize, 64 - m);
-    let unit_json = json!({"sched": true, "lines": lines, "requested_merges": m, "workers": workers, "bound": bound});
+    let unit_json = json!({"sched": true, "lines": lines, "requested_merges": m, "workers": workers, "bound": bound, "controlled_reducer": controlled_reducer});
     let runp: *mut Run = run;
     let make_body = || {
         let (corpus, out) = (corpus.clone(), out.clone());
@@ -532,7 +535,7 @@ fn check_sched(run: &mut Run, ctx: &mut Ctx, lines: &[String], m: usize, workers
         run.num_violations() < 4
     };
     if let Some(choices) = replay {
-        let x = tu_verif::countsched::exec(ThreadKind::BpeCounter, workers, &choices, make_body());
+        let x = tu_verif::countsched::exec_mode(ThreadKind::BpeCounter, workers, controlled_reducer, &choices, make_body());
         quiet_panics();
         if x.choices() != choices {
             run.violation("machinery-replay-divergence", "machinery", unit_json.clone(), format!("replayed {:?}", x.choices()));
@@ -540,7 +543,11 @@ fn check_sched(run: &mut Run, ctx: &mut Ctx, lines: &[String], m: usize, workers
         check(&x, &choices);
         return;
     }
-    let stats = tu_verif::countsched::explore(ThreadKind::BpeCounter, workers, bound, run.deadline(), make_body, &mut check);
+    let stats = if controlled_reducer {
+        tu_verif::countsched::explore_controlled(ThreadKind::BpeCounter, workers, bound, run.deadline(), make_body, &mut check)
+    } else {
+        tu_verif::countsched::explore(ThreadKind::BpeCounter, workers, bound, run.deadline(), make_body, &mut check)
+    };
     quiet_panics();
     run.count_n("scheduler:executions", stats.executions);
     run.count_n("scheduler:transitions", stats.transitions);
@@ -559,7 +566,7 @@ fn main() {
             let mut ctx = Ctx::new();
             let lines: Vec<String> = c["lines"].as_array().unwrap().iter().map(|l| l.as_str().unwrap().to_string()).collect();
             let choices = c["choices"].as_array().map(|a| a.iter().map(|v| v.as_u64().unwrap() as usize).collect()).unwrap_or_default();
-            check_sched(&mut run, &mut ctx, &lines, c["requested_merges"].as_u64().unwrap() as usize, c["workers"].as_u64().unwrap() as usize, c["bound"].as_u64().unwrap() as usize, Some(choices));
+            check_sched(&mut run, &mut ctx, &lines, c["requested_merges"].as_u64().unwrap() as usize, c["workers"].as_u64().unwrap() as usize, c["bound"].as_u64().unwrap() as usize, c["controlled_reducer"].as_bool().unwrap_or(false), Some(choices));
             drop(ctx);
             run.finish();
         }
@@ -632,11 +639,15 @@ fn main() {
     run.assumptions.push("scheduler part: only the counting workers are controlled, the reducer (calling thread) runs freely and always receives, so the order of messages it sees is the controlled order of sends; sequentially consistent exploration of the instrumented primitives".into());
     let mut ctx = Ctx::new();
     // Engine B first: every schedule of the counting workers up to the preemption bound
+    let cb = if run.quick() { 2 } else { 3 };
     for (j, u) in sus.iter().enumerate() {
         if !run.unit((corpora.len() + j) as u64) {
             continue;
         }
-        check_sched(&mut run, &mut ctx, &u.0, u.1, u.2, u.3, None);
+        check_sched(&mut run, &mut ctx, &u.0, u.1, u.2, u.3, false, None);
+        // the same scenario with the reducer (the calling thread) controlled as well: its spawns and
+        // receives are scheduling points and the count channel is the real bounded channel
+        check_sched(&mut run, &mut ctx, &u.0, u.1, u.2, u.3.min(if u.2 >= 3 { cb - 1 } else { cb }), true, None);
     }
     for (iu, lines) in corpora.iter().enumerate() {
         if !run.unit(iu as u64) {
